@@ -123,8 +123,10 @@ def rule_b(chk, c, cname):
             for e in tn.succ:
                 if edge(e) and e.dst not in group:
                     # deleting inside suppress(KeyError) or a loop over matching keys still counts: look for the statement
-                    q = Q.escapes(g, [e.dst], lambda n: n in group, avoid_edge=lambda e2: e2.src.kind == 'for' and e2.kind == 'F' and
-                                  any(('loop', e2.src.ast) in u.ctx for u in group))
+                    q = Q.escapes(g, [e.dst], lambda n: n in group, avoid_edge=lambda e2: (e2.src.kind == 'for' and e2.kind == 'F' and
+                                  any(('loop', e2.src.ast) in u.ctx for u in group)) or
+                                  (label == 'map-entry-removed' and e2.src.kind == 'test' and e2.kind in ('T', 'F') and
+                                   (lambda fc: fc is not None and fc[1] == 'not in' and fc[2] == 'self._map')(pat.compare_fact(e2.src.ast, e2.kind))))
                     if q is not None:
                         ok = False
                         path = q
